@@ -2,8 +2,10 @@
    table keyed by getConnKey, getOrCreateConn with its wildcard fallback,
    getConn's replace-if-closed, one iteration of Serve's read loop, the
    periodic handleInactivityMonitors sweep, Server.NewConn, the discovery table
-   (multicastHandler) consulted by the cfg.Handler wrapper, and the decision
-   table of checkAcceptError of the stream/DTLS servers.
+   (multicastHandler) consulted by the cfg.Handler wrapper, the decision
+   table of checkAcceptError of the stream/DTLS servers, and (Part 5) their
+   accept level: one goroutine per accepted connection, the handshake of a
+   connection being an event of its own goroutine.
 
    The per-peer connection (udp/client.Conn) is an abstract deterministic state
    machine [peer_step] (Section variable).  Part 3 instantiates it with the
@@ -503,3 +505,148 @@ Fixpoint accept_loop (script : list (accept_err * bool)) (calls served reported 
       if cont then accept_loop r (calls + 1) (match e with AccNil => served + 1 | _ => served end) reported'
       else (Some (calls + 1), served, reported')
   end.
+
+(* ------------------------------------------------------------------ *)
+(* Part 5: the accept level of tcp/server and dtls/server              *)
+(* ------------------------------------------------------------------ *)
+(* Serve:  for { rw, err := l.AcceptWithContext(s.ctx); if !checkAcceptError(err) { return };
+                 if err != nil || rw == nil { continue }; go serveConnection(rw) }
+
+   The loop does nothing with an accepted connection but start its goroutine.  ACCEPTING NEVER
+   WAITS FOR A HANDSHAKE: a TLS listener (net.TLSListener = tls.NewListener) hands out
+   connections whose handshake has not begun -- crypto/tls runs it inside the first Read/Write,
+   i.e. inside client.Conn.Run of that connection's goroutine --, and the DTLS server calls
+   HandshakeContext (bounded by cfg.HandshakeTimeout) as the first statement of serveConnection,
+   again in the connection's goroutine.  So the outcome of a connection's handshake is an EVENT
+   OF THAT CONNECTION'S GOROUTINE, like every message it reads afterwards; a handshake that
+   never ends is the absence of such an event (the connection stays in PhHandshake).
+
+   tcp/server announces the connection (OnNewConn) when the goroutine starts, before any
+   handshake ([early_announce] = true); dtls/server announces it after the handshake.
+   When Serve returns, the deferred connections.Close() closes every connection.
+
+   The per-connection machine [conn_step] (one message processed by the connection) is a Section
+   variable, as [peer_step] is in Part 2. *)
+Inductive hs_result := HsOk | HsErr.                      (* handshake completed / failed (garbage, peer gone, time-out) *)
+Inductive cphase := PhHandshake | PhOpen | PhGone.
+
+Section AcceptLevel.
+  Variables CS D O : Type.
+  Variable conn_init : CS.
+  Variable conn_step : CS -> D -> CS * list O.
+  Variable early_announce : bool.
+
+  Inductive aev :=
+  | AvAccept (c : nat)                               (* the listener returns connection c with a nil error *)
+  | AvAcceptErr (e : accept_err) (ctx_done : bool)   (* the listener returns an error *)
+  | AvHandshake (c : nat) (r : hs_result)            (* c's goroutine: its handshake ends *)
+  | AvData (c : nat) (d : D)                         (* c's goroutine: one message read and processed *)
+  | AvClose (c : nat).                               (* c's goroutine: the connection ends (peer closed it, read error) *)
+
+  Inductive aout :=
+  | AoSpawn (c : nat)          (* goroutine started *)
+  | AoNew (c : nat)            (* OnNewConn *)
+  | AoHsFailed (c : nat)       (* cfg.Errors: handshake failed *)
+  | AoOut (c : nat) (o : O)    (* what c's machine emitted *)
+  | AoClosed (c : nat)
+  | AoAcceptErr                (* cfg.Errors: cannot accept connection *)
+  | AoStopped.                 (* Serve returned *)
+
+  Definition ctab := list (nat * (cphase * CS)).
+  Record astate := AS { a_accepting : bool; a_conns : ctab }.
+  Definition ainit : astate := AS true [].
+
+  Fixpoint alookup (c : nat) (l : ctab) : option (cphase * CS) :=
+    match l with
+    | [] => None
+    | (k, v) :: r => if Nat.eqb k c then Some v else alookup c r
+    end.
+  Fixpoint aupdate (c : nat) (v : cphase * CS) (l : ctab) : ctab :=
+    match l with
+    | [] => []
+    | (k, w) :: r => if Nat.eqb k c then (k, v) :: r else (k, w) :: aupdate c v r
+    end.
+  Definition all_gone (l : ctab) : ctab := map (fun x => (fst x, (PhGone, snd (snd x)))) l.
+
+  Definition astep (s : astate) (e : aev) : astate * list aout :=
+    match e with
+    | AvAccept c =>
+        if a_accepting s then
+          match alookup c (a_conns s) with
+          | Some _ => (s, [])          (* a listener does not hand out one connection twice *)
+          | None =>
+              (* whatever the other connections are doing -- no look at their phases *)
+              (AS true ((c, (PhHandshake, conn_init)) :: a_conns s),
+               AoSpawn c :: (if early_announce then [AoNew c] else []))
+          end
+        else (s, [])                   (* Serve has returned: nobody calls Accept *)
+    | AvAcceptErr e ctx_done =>
+        if a_accepting s then
+          let '(cont, rep, _) := check_accept_error e ctx_done in
+          let outs := if rep && user_visible e then [AoAcceptErr] else [] in
+          if cont then (s, outs) else (AS false (all_gone (a_conns s)), outs ++ [AoStopped])
+        else (s, [])
+    | AvHandshake c r =>
+        match alookup c (a_conns s) with
+        | Some (PhHandshake, cs) =>
+            match r with
+            | HsOk => (AS (a_accepting s) (aupdate c (PhOpen, cs) (a_conns s)), if early_announce then [] else [AoNew c])
+            | HsErr => (AS (a_accepting s) (aupdate c (PhGone, cs) (a_conns s)), [AoHsFailed c])
+            end
+        | _ => (s, [])
+        end
+    | AvData c d =>
+        match alookup c (a_conns s) with
+        | Some (PhOpen, cs) =>
+            let '(cs', os) := conn_step cs d in
+            (AS (a_accepting s) (aupdate c (PhOpen, cs') (a_conns s)), map (AoOut c) os)
+        | _ => (s, [])                 (* nothing is read as a message before the handshake is over *)
+        end
+    | AvClose c =>
+        match alookup c (a_conns s) with
+        | Some (PhHandshake, cs) | Some (PhOpen, cs) => (AS (a_accepting s) (aupdate c (PhGone, cs) (a_conns s)), [AoClosed c])
+        | _ => (s, [])
+        end
+    end.
+
+  Fixpoint arun (s : astate) (evs : list aev) : astate * list aout :=
+    match evs with
+    | [] => (s, [])
+    | e :: r => let '(s1, o1) := astep s e in let '(s2, o2) := arun s1 r in (s2, o1 ++ o2)
+    end.
+
+  (* the events that concern connection c: its own, and what the listener reports as errors *)
+  Definition aev_keep (c : nat) (e : aev) : bool :=
+    match e with
+    | AvAcceptErr _ _ => true
+    | AvAccept k | AvHandshake k _ | AvData k _ | AvClose k => Nat.eqb k c
+    end.
+  (* the outputs that concern connection c *)
+  Definition aout_of (c : nat) (o : aout) : bool :=
+    match o with
+    | AoSpawn k | AoNew k | AoHsFailed k | AoOut k _ | AoClosed k => Nat.eqb k c
+    | AoAcceptErr | AoStopped => true
+    end.
+
+  (* NOT the code -- the what-if the theorems are contrasted with: an accept loop that finishes the
+     handshake of the connection it has just accepted before it goes back to Accept.  While some
+     connection is still in its handshake the loop is not in Accept, so the listener returns nothing. *)
+  Definition hs_pending (l : ctab) : bool :=
+    existsb (fun x => match fst (snd x) with PhHandshake => true | _ => false end) l.
+  Definition astep_inline (s : astate) (e : aev) : astate * list aout :=
+    match e with
+    | AvAccept _ | AvAcceptErr _ _ => if hs_pending (a_conns s) then (s, []) else astep s e
+    | _ => astep s e
+    end.
+  Fixpoint arun_inline (s : astate) (evs : list aev) : astate * list aout :=
+    match evs with
+    | [] => (s, [])
+    | e :: r => let '(s1, o1) := astep_inline s e in let '(s2, o2) := arun_inline s1 r in (s2, o1 ++ o2)
+    end.
+End AcceptLevel.
+
+Arguments AvAccept {D}. Arguments AvAcceptErr {D}. Arguments AvHandshake {D}. Arguments AvData {D}. Arguments AvClose {D}.
+Arguments AoSpawn {O}. Arguments AoNew {O}. Arguments AoHsFailed {O}. Arguments AoOut {O}. Arguments AoClosed {O}.
+Arguments AoAcceptErr {O}. Arguments AoStopped {O}.
+Arguments AS {CS}. Arguments a_accepting {CS}. Arguments a_conns {CS}.
+Arguments aout_of {O}. Arguments aev_keep {D}.
